@@ -12,8 +12,10 @@ import (
 	"bytes"
 	"fmt"
 	"io"
+	"log"
 	"net"
 	"net/http"
+	"os"
 	"strconv"
 	"strings"
 	"sync"
@@ -324,6 +326,9 @@ func c07StartFront(serverYAML, pipelineYAML string) *c07Front {
 		panic(err)
 	}
 	srv := &http.Server{Handler: m}
+	if os.Getenv("C07_DEBUG") == "" {
+		srv.ErrorLog = log.New(io.Discard, "", 0)
+	}
 	go srv.Serve(ln)
 	return &c07Front{m: m, srv: srv, ln: ln, pl: pl}
 }
@@ -335,3 +340,20 @@ func (f *c07Front) Close() {
 	f.pl.Close()
 	f.m.close()
 }
+
+func c07ServerYAML(srv, path int64) string {
+	return fmt.Sprintf(`
+kind: HTTPServer
+name: front
+port: 10080
+keepAlive: true
+https: false
+clientMaxBodySize: %d
+rules:
+- paths:
+  - pathPrefix: /
+    backend: p
+    clientMaxBodySize: %d
+`, srv, path)
+}
+
